@@ -147,3 +147,177 @@ pub fn mutate_bytes(text: &str, rng: &mut Rng) -> String {
     }
     String::from_utf8_lossy(&b).into_owned()
 }
+
+/// Tokens with (line, column-in-chars, text); same tokenization as `lex`.
+pub fn lex_spans(text: &str) -> Vec<(u64, u64, String)> {
+    let cs: Vec<char> = text.chars().collect();
+    let mut out = vec![];
+    let mut i = 0;
+    let (mut line, mut col) = (0u64, 0u64);
+    let adv = |c: char, line: &mut u64, col: &mut u64| {
+        if c == '\n' {
+            *line += 1;
+            *col = 0;
+        } else {
+            *col += 1;
+        }
+    };
+    while i < cs.len() {
+        let c = cs[i];
+        if c.is_whitespace() {
+            adv(c, &mut line, &mut col);
+            i += 1;
+            continue;
+        }
+        let start = i;
+        let (sl, sc) = (line, col);
+        let mut j = i;
+        if c == '"' || c == '\'' || (c == '/' && i + 1 < cs.len() && cs[i + 1] != '/' && cs[i + 1] != '*') {
+            j += 1;
+            while j < cs.len() && cs[j] != c {
+                if cs[j] == '\\' {
+                    j += 1;
+                }
+                j += 1;
+            }
+            j = (j + 1).min(cs.len());
+        } else if c == '/' && i + 1 < cs.len() && cs[i + 1] == '/' {
+            while j < cs.len() && cs[j] != '\n' {
+                j += 1;
+            }
+        } else if c == '/' && i + 1 < cs.len() && cs[i + 1] == '*' {
+            j += 2;
+            while j + 1 < cs.len() && !(cs[j] == '*' && cs[j + 1] == '/') {
+                j += 1;
+            }
+            j = (j + 2).min(cs.len());
+        } else if c == '%' {
+            j += 1;
+            while j < cs.len() && (cs[j].is_alphanumeric() || cs[j] == '_' || cs[j] == '%') {
+                j += 1;
+            }
+        } else if c.is_alphanumeric() || c == '_' {
+            while j < cs.len() && (cs[j].is_alphanumeric() || cs[j] == '_') {
+                j += 1;
+            }
+        } else if (c == ':' && i + 1 < cs.len() && cs[i + 1] == ':') || (c == '?' && i + 1 < cs.len() && (cs[i + 1] == '=' || cs[i + 1] == '!')) {
+            j += 2;
+        } else {
+            j += 1;
+        }
+        for k in start..j.min(cs.len()) {
+            adv(cs[k], &mut line, &mut col);
+        }
+        i = j.min(cs.len()).max(start + 1);
+        out.push((sl, sc, cs[start..i].iter().collect()));
+    }
+    out
+}
+
+pub fn comments_of(text: &str) -> Vec<String> {
+    lex(text).into_iter().filter(|t| t.starts_with("//") || t.starts_with("/*")).map(|t| t.trim_end().to_string()).collect()
+}
+
+/// Insert comments at random token boundaries (never inside a token). Returns the new text.
+pub fn sprinkle_comments(text: &str, rng: &mut Rng, density_pct: usize) -> String {
+    let toks = lex(text);
+    let mut out = String::new();
+    let mut n = 0;
+    let mut emit = |out: &mut String, rng: &mut Rng| {
+        n += 1;
+        match rng.below(3) {
+            0 => out.push_str(&format!(" // line comment {n}\n")),
+            1 => out.push_str(&format!(" /* block comment {n} */ ")),
+            _ => out.push_str(&format!("\n/* multi\n   line {n} */\n")),
+        }
+    };
+    if rng.chance(density_pct, 100) {
+        emit(&mut out, rng);
+    }
+    for (i, t) in toks.iter().enumerate() {
+        if i > 0 {
+            out.push(' ');
+        }
+        out.push_str(t);
+        if t.starts_with("//") {
+            out.push('\n');
+        }
+        if t == ";" || t == "%%" || t == "}" {
+            out.push('\n');
+        }
+        if rng.chance(density_pct, 100) {
+            emit(&mut out, rng);
+        }
+    }
+    out.push('\n');
+    out
+}
+
+/// Comments only at "ordinary" places: file start, before a declaration, before a production,
+/// before an alternative bar at top level, after a production's semicolon, file end.
+/// Returns (text, number of comments).
+pub fn sprinkle_comments_ordinary(text: &str, rng: &mut Rng, density_pct: usize) -> String {
+    let toks = lex(text);
+    let mut out = String::new();
+    let mut n = 0;
+    let mut depth = 0i32;
+    let mut in_grammar = false;
+    let mut emit = |out: &mut String, rng: &mut Rng, own_line: bool| {
+        n += 1;
+        if own_line {
+            match rng.below(3) {
+                0 => out.push_str(&format!("\n// line comment {n}\n")),
+                1 => out.push_str(&format!("\n/* block comment {n} */\n")),
+                _ => out.push_str(&format!("\n/* multi\n   line {n} */\n")),
+            }
+        } else {
+            match rng.below(2) {
+                0 => out.push_str(&format!(" // line comment {n}\n")),
+                _ => out.push_str(&format!(" /* block comment {n} */ ")),
+            }
+        }
+    };
+    if rng.chance(density_pct, 100) {
+        emit(&mut out, rng, true);
+    }
+    for (i, t) in toks.iter().enumerate() {
+        let next_is_colon = toks.get(i + 1).map(|x| x == ":").unwrap_or(false);
+        // before a declaration / before a production
+        let decl_start = t.starts_with('%') && t != "%%" && depth == 0 && !matches!(t.as_str(), "%enter" | "%push" | "%pop");
+        let prod_start = in_grammar && depth == 0 && next_is_colon && i > 0 && toks[i - 1] == ";";
+        if (decl_start || prod_start) && rng.chance(density_pct, 100) {
+            emit(&mut out, rng, true);
+        }
+        if in_grammar && depth == 0 && t == "|" && rng.chance(density_pct, 100) {
+            emit(&mut out, rng, false);
+        }
+        if i > 0 {
+            out.push(' ');
+        }
+        out.push_str(t);
+        match t.as_str() {
+            "(" | "[" | "{" | "<" => depth += 1,
+            ")" | "]" | "}" | ">" => depth -= 1,
+            "%%" => {
+                in_grammar = true;
+                depth = 0;
+                out.push('\n');
+            }
+            ";" => {
+                if rng.chance(density_pct, 100) {
+                    emit(&mut out, rng, false);
+                }
+                out.push('\n');
+            }
+            _ => {}
+        }
+        if t.starts_with("//") {
+            out.push('\n');
+        }
+    }
+    if rng.chance(density_pct, 100) {
+        emit(&mut out, rng, true);
+    }
+    out.push('\n');
+    out
+}
